@@ -186,6 +186,26 @@ def value_equality(chk, r, tier):
                 chk.violation(f"intersects/{sk}/inds-form-differs/{how}-positions", dict(api="PointArray.intersects(inds=)", kind=sk, inds=[150, 3, 199], inds_type=how, got=got,
                                                                                        whole_array=[whole[150], whole[3], whole[199]]))
     chk.count("position-types")
+    # the restricted form on a window of a larger array (non-zero buffer offset) whose parent holds missing points before, inside and
+    # behind the window: positions are positions in the window, a missing point answers False
+    parent_pts = [[i, i] for i in range(24)]
+    for k in (0, 1, 5, 9, 10, 17, 23):
+        parent_pts[k] = None
+    parent = PointArray([None if q is None else np.array(q, dtype="float64") for q in parent_pts], dtype="float64")
+    for sk, shape in {"polygon": geo.make_array("polygon", [[[-1, -1, 30, -1, 30, 30, -1, 30, -1, -1]]], "float64")[0],
+                      "line": LineArray([[0, 0, 30, 30]], dtype="float64")[0], "multipoint": MultiPointArray([[0, 0, 9, 9, 12, 12, 3, 3]], dtype="float64")[0]}.items():
+        for lo, hi in ((3, 15), (1, 24), (8, 12), (0, 24)):
+            win = parent[lo:hi]
+            whole = [bool(x) for x in win.intersects(shape)]
+            want = [bool(x) for x in PointArray([None if q is None else np.array(q, dtype="float64") for q in parent_pts[lo:hi]], dtype="float64").intersects(shape)]
+            for inds in (list(range(hi - lo)), list(range(hi - lo))[::-1], list(range(0, hi - lo, 2))):
+                got = [bool(x) for x in win.intersects(shape, inds=np.array(inds))]
+                chk.evaluated()
+                if whole != want or got != [want[i] for i in inds]:
+                    chk.violation(f"intersects/{sk}/inds-form-differs/window-of-an-array-with-missing-points",
+                                  dict(api="PointArray.intersects(inds=)", kind=sk, window=[lo, hi], inds=inds, got=got, expected=[want[i] for i in inds], whole_array=whole))
+                    break
+    chk.count("windowed-inds")
 
 
 def run_cases(chk, tier):
